@@ -127,7 +127,10 @@ def run(REG, tier, seed, jobs):
     parts.append({'name': 'C02/bounded/lexer-tiling-and-positions', 'function': 'Lexer.lex', 'bound': f'all texts of <= {n} symbols over {alpha!r}',
                   'evaluations': ev, 'distinct_nontrivial': nt, 'rule': 'non-trivial: accepted with at least two tokens', 'exhaustive': True, 'failures': fails})
     lits = ['0', '00', '007', '01', '09', '0644', '010', '0x1F', '0X1f', '0xg', '0x', '0b101', '0B1', '0b2', '0b', '0o17', '0O7', '0o8', '0o', '1_000', '12ab', '1.5', '.5', '1e3', '-0', '0-', '10', '9', '0a',
-            "'a'", "'a\\'", "'\\x41'", "'\\N{DIGIT ONE}'", "'\\N{foo}'", "'\\N{'", "'\\U00110000'", "'\\U0010FFFF'", "'\\uD800'", "'\\u12'", "'\\x4'", "'\\xZZ'", "'\\400'", "'\\101'", "'\\8'", "'''a''''", "''''a'''", "f'@0@'", "f'@a'", "'@a@'", "'a' 'b'", "'a''b'", 'true', 'false', 'True', 'not', 'in']
+            "'a'", "'a\\'", "'\\x41'", "'\\N{DIGIT ONE}'", "'\\N{foo}'", "'\\N{'", "'\\U00110000'", "'\\U0010FFFF'", "'\\uD800'", "'\\u12'", "'\\x4'", "'\\xZZ'", "'\\400'", "'\\101'", "'\\8'", "'''a''''", "''''a'''", "f'@0@'", "f'@a'", "'@a@'", "'a' 'b'", "'a''b'", 'true', 'false', 'True', 'not', 'in',
+            # characters of every width of the text encoding inside and around escape sequences (Latin-1, BMP, astral)
+            "'\\N{\u2192}'", "'\\N{OHM SIGN \u03a9}'", "'\\N{caf\u00e9}'", "'\u2192\\n'", "'\\x41\u03a9'", "'\U0001f600\\t'", "'\\N{\U0001f600}'", "'\u00e9\\u00e9'", "f'\\N{\u2192}@a@'", "'''\\N{\u2192}'''",
+            "'\\\u2192'", "'\\u\u2192'", "'\\x\u00e9'"]
     ctx = ['x = {}', 'f({})', '[{}, {}]', "{{'k': {}}}", 'if v == {}\nendif', 'x = {} + {}', 'f(k: {})', 'x = a[{}]', 'x = {}.m()']
     ltexts = [c.replace('{}', l).replace('{{', '{').replace('}}', '}') + '\n' for c in ctx for l in lits]
     ev, nt, fails = pmap(_parse_chunk, chunked(iter(ltexts), 50), jobs)
